@@ -57,6 +57,10 @@ def generate(seed, tier):
             else:
                 sub_ = srng_.sample(list(params), srng_.randint(1, len(params)))
                 ops.append({"op": "set_params", "fmt": "dict", "values": [[nm, round(srng_.uniform(0.05, 3.0), 4)] for nm in sub_]})
+            if srng_.random() < 0.6:
+                # ... and the very same point (z, t) is evaluated again right after it
+                prev = [o for o in ops if o["op"] == "sens"][-1]
+                ops.append(dict(prev, jac_first=srng_.random() < 0.4))
         if not nopar and rng.random() < 0.12 and len(ops) < 4:
             # the model grows between two uses of the sensitivity functions (same states and parameters)
             g = sc.grow_ops(S("sched"), model, names, params, ["grad"], count=1)
